@@ -13,8 +13,10 @@
 (* the excerpt is governed by the clef / key / time signature it had in the *)
 (* full score.                                                              *)
 (***************************************************************************)
-EXTENDS Queries, TLC
-CONSTANTS MaxLines, MaxLive
+EXTENDS ExcerptImpl, TLC
+CONSTANTS MaxLines, MaxLive,
+          UseImpl,      \* FALSE: phase 2 is fed the REFERENCE excerpt; TRUE: the excerpt the implementation's algorithm produces (ExcerptImpl)
+          EqualKinds    \* TRUE: a signature line has the same kind of signature in every spine (core of the core; FALSE explores 'unequal_sig_kinds')
 VARIABLES phase, pending, want, nfed
 xVars == <<stages, live, gtail, mstarts, lineno, errs, status, phase, pending, want, nfed>>
 
@@ -38,7 +40,7 @@ Gen ==
   /\ phase = 1 /\ Len(stages) - 1 < MaxLines
   /\ \/ \E n \in 1..2 : Header([i \in 1..n |-> HdrC])
      \/ /\ status = "body"
-        /\ \/ (mstarts = <<>> /\ \E cs \in Rows({ClefG, ClefF, TimeC}) : Row(cs))                    \* signatures: before the first measure, in every spine
+        /\ \/ (mstarts = <<>> /\ \E S \in (IF EqualKinds THEN {{ClefG, ClefF}, {TimeC}} ELSE {{ClefG, ClefF, TimeC}}) : \E cs \in Rows(S) : Row(cs))   \* signatures: before the first measure, in every spine
            \/ \E cs \in Rows({NoteC, NullC}) : (\E i \in 1..N : cs[i] = NoteC) /\ Row(cs)
            \/ (NoSplitOpen /\ Row([i \in 1..N |-> BarC]))                                             \* no barline inside a split
            \* splits only inside a measure (a measure that starts on an operator line or inside a split is the explored class)
@@ -66,11 +68,19 @@ GovOf(a, b) ==
   LET fs == RangeFirst(a)  ls == RangeLast(b)
       ptrs == Flat([j \in 1..(ls - fs + 1) |-> SelectSeq([i \in 1..Len(stages[fs + j - 1]) |-> <<fs + j - 1, i>>], LAMBDA q : At(q).cell.k = "note")])
   IN [j \in 1..Len(ptrs) |-> LET n == At(ptrs[j]) IN <<SigTextAt(n.sig.clef), SigTextAt(n.sig.key), SigTextAt(n.sig.time)>>]
+\* the excerpt the implementation's algorithm gives for the same range, as lines of the same vocabulary (cells recognised by their text)
+Vocabulary == {NoteC, NullC, NulliC, ClefG, ClefF, TimeC, BarC, SplitC, JoinC, TermC, HdrC}
+CellOfText(t) == IF \E c \in Vocabulary : c.t = t THEN CHOOSE c \in Vocabulary : c.t = t ELSE [k |-> "err", t |-> t]
+ImplLines(a, b) ==
+  LET g == ImplExcerpt(a, TRUE, b, DefaultOpts).grid IN
+  [r \in 1..Len(g) |-> [ev |-> IF \A i \in 1..Len(g[r]) : CellOfText(g[r][i]).k = "hdr" THEN "header" ELSE "row",
+                         cells |-> [i \in 1..Len(g[r]) |-> CellOfText(g[r][i])]]]
 \* choose a range of a closed score and start over on its reference excerpt
 Cut ==
   /\ phase = 1 /\ status = "closed" /\ M >= 1
   /\ \E a \in 1..M : \E b \in a..M :
-        /\ pending' = RefExcerpt(a, b) /\ want' = GovOf(a, b)
+        /\ (UseImpl => ImplExcerpt(a, TRUE, b, DefaultOpts).ok)
+        /\ pending' = (IF UseImpl THEN ImplLines(a, b) ELSE RefExcerpt(a, b)) /\ want' = GovOf(a, b)
   /\ stages' = << <<RootNode>> >> /\ live' = <<>> /\ gtail' = <<1, 1>> /\ mstarts' = <<>> /\ lineno' = 1 /\ errs' = <<>> /\ status' = "pre"
   /\ phase' = 2 /\ nfed' = 0
 
@@ -87,4 +97,18 @@ NeverStuck == (phase = 2 /\ pending # <<>>) => ENABLED FeedStep              \* 
 EndsClosed == (phase = 2 /\ pending = <<>>) => status = "closed"             \* every spine terminated
 SameGoverning == (phase = 2 /\ pending = <<>>) => NotesGoverning = want       \* every note under the clef / key / time of the full score
 ExcerptsExplored == TRUE
+\* the implementation's algorithm never raises on a core score ...
+ImplNeverRaises == (UseImpl /\ phase = 1 /\ status = "closed") => \A a \in 1..M : \A b \in a..M : ImplExcerpt(a, TRUE, b, DefaultOpts).ok
+\* ... and gives the reference excerpt, line for line (so NeverStuck / EndsClosed / SameGoverning hold for what the code prints)
+\* (the order of the signature lines is free in Humdrum: the reference is taken with the kinds in the order of their first appearance,
+\*  which is the order the implementation prints them in)
+RefKind(k) == CASE k = "clef" -> "clef" [] k = "keysig" -> "key" [] k = "timesig" -> "time" [] k = "meter" -> "meter"
+RefGrid(a, b) ==
+  LET e == RefExcerpt(a, b)  fs == RangeFirst(a)  first == stages[fs]
+      ks == KindsInOrder(<<fs, 1>>)
+      nsig == Cardinality({k \in {"clef", "key", "time", "meter"} : \E i \in 1..Len(first) : SigPtr(first[i], k) # NoPtr})
+      sigrow(k) == [i \in 1..Len(first) |-> IF SigPtr(first[i], RefKind(k)) = NoPtr THEN <<STAR>> ELSE At(SigPtr(first[i], RefKind(k))).cell.t]
+      textrow(r) == [i \in 1..Len(e[r].cells) |-> e[r].cells[i].t]
+  IN <<textrow(1)>> \o [j \in 1..Len(ks) |-> sigrow(ks[j])] \o [r \in 1..(Len(e) - 1 - nsig) |-> textrow(r + 1 + nsig)]
+ImplIsReference == (UseImpl /\ phase = 1 /\ status = "closed") => \A a \in 1..M : \A b \in a..M : ImplExcerpt(a, TRUE, b, DefaultOpts).grid = RefGrid(a, b)
 =============================================================================
